@@ -101,7 +101,9 @@ func NewEngine(repo *chain.Repository, mainDB *muxdb.MuxDB, forkConfig *thor.For
 // The node stores a block (repo.AddBlock) before CommitBlock persists the quality of a store point.
 // If the process dies in between, the block is known when it is delivered again and is never committed:
 // its quality stays missing, getQuality reads 0 and every later round of that branch starts from a too-low
-// quality. Such a block has no children yet, so it is one of the branch heads: commit those that lack a quality.
+// quality. Such a block has no children yet, so it is one of the branch heads. CommitBlock writes the quality first
+// and the finalized checkpoint second, so either may be missing: the heads that are store points are committed
+// again (CommitBlock is idempotent).
 func (engine *Engine) recoverInterruptedCommit() error {
 	heads, err := engine.repo.ScanHeads(block.Number(engine.Finalized()))
 	if err != nil {
@@ -111,11 +113,6 @@ func (engine *Engine) recoverInterruptedCommit() error {
 		num := block.Number(id)
 		if num == 0 || num < engine.forkConfig.FINALITY || getStorePoint(num) != num {
 			continue
-		}
-		if _, err := loadQuality(engine.data, id); err == nil {
-			continue
-		} else if !engine.data.IsNotFound(err) {
-			return err
 		}
 		sum, err := engine.repo.GetBlockSummary(id)
 		if err != nil {
